@@ -1,6 +1,6 @@
 From Coq Require Import Extraction ExtrOcamlBasic.
 From LCP Require Import Base.ExtractBase Base.CheckedMem Gen.Repo_hash Alg.Words Alg.Sha256Model
-     Alg.MD32Model Alg.HmacModel Alg.HashRepo Alg.Sha256Spec Alg.Sha1Spec Alg.Md5Spec Alg.HashSpecs.
+     Alg.MD32Model Alg.HmacModel Alg.HashRepo Alg.MDSpec Alg.Sha256Spec Alg.Sha1Spec Alg.Md5Spec Alg.HashSpecs.
 Extraction Language OCaml.
 Extraction "hash.ml" force_number_types
   sha256_init sha256_update sha256_final sha256_buf sha256_transform c256_is_zero
@@ -11,4 +11,5 @@ Extraction "hash.ml" force_number_types
   hmacmd5_init hmacmd5_update hmacmd5_final hmacmd5_buf hctx32_is_zero
   pbkdf2_sha256
   SHA256_spec SHA1_spec MD5_spec HMAC_SHA256_spec HMAC_SHA1_spec HMAC_MD5_spec PBKDF2_SHA256_spec
-  f256_compress f1_compress r5_compress.
+  f256_compress f1_compress r5_compress
+  SHA256_resume_spec SHA1_resume_spec MD5_resume_spec md_counts mk256 mk32 c256_count c32_count0 c32_count1.
